@@ -114,6 +114,10 @@ def canon(s):
             return canon(["op", "<=", b, a])
         if o == "!=":
             return canon(["not", canon(["op", "==", a, b])])
+        if o == "==":
+            for k_, m_ in ((a, b), (b, a)):
+                if k_ == ["n", 1] and m_[0] == "op" and m_[1] == "%" and m_[3] == ["n", 2]:
+                    return ["op", "<", ["n", 0], m_]   # x % 2 == 1  is  x % 2 != 0
         if o in ("==", "|", "&", "+", "*", "^", "||", "&&"):
             # commutative (conditions in this crate are side-effect free, so || and && commute as well)
             if json.dumps(a, sort_keys=True) > json.dumps(b, sort_keys=True):
@@ -159,9 +163,9 @@ def canon(s):
         if a[0] == "bool":
             return ["bool", not a[1]]
         if a[0] == "op" and a[1] == "<":
-            return ["op", "<=", a[3], a[2]]
+            return canon(["op", "<=", a[3], a[2]])
         if a[0] == "op" and a[1] == "<=":
-            return ["op", "<", a[3], a[2]]
+            return canon(["op", "<", a[3], a[2]])
         if a[0] == "op" and a[1] == "==" and a[2] == ["n", 0]:
             return ["op", "<", ["n", 0], a[3]]  # unsigned: x != 0  ==  0 < x
         if a[0] == "op" and a[1] == "==" and a[3] == ["n", 0]:
@@ -689,6 +693,10 @@ class Builder:
         return self._wrap("cut", fn)
 
     def cond(self, c, fn):
+        if c == ["bool", True]:
+            return some(self._inline(fn))
+        if c == ["bool", False]:
+            return NONE
         return self._wrap("cond", fn, c)
 
     def count(self, n, fn):
@@ -700,15 +708,23 @@ class Builder:
         # looking at the same bytes again (a helper that re-reads what its caller already peeked, with nothing consumed
         # in between) yields the same value: reuse the dominating peek
         import copy
+        wrap_ = None
+        r_ = seq["ret"]
+        if r_ and r_[0] == "ok" and r_[1][0] == "ctor" and len(r_[1][2]) == 1 and r_[1][2][0][0] == "v":
+            # peek(map(p, Newtype)) is Newtype(peek(p)): the step keeps the raw value
+            wrap_ = r_[1][1]
+            seq = {"steps": seq["steps"], "ret": ["ok", r_[1][2][0]]}
+        def out_(v):
+            return ["ctor", wrap_, [v]] if wrap_ else v
         key = (self.cur, json.dumps(renumber(copy.deepcopy(seq)), sort_keys=True))
         bld = self
         while bld is not None:
             if key in bld.own_peeks:
-                return V(bld.own_peeks[key])
+                return out_(V(bld.own_peeks[key]))
             bld = bld.parent
         self.own_peeks[key] = b
         self.steps.append(["peek", b, seq])
-        return V(b)
+        return out_(V(b))
 
     def sub(self, region, fn):
         b = self.counter.fresh()
@@ -940,6 +956,18 @@ class Builder:
                 for c in consts:
                     self.guard(eq(scrut, N(c)), s["ret"][1])
             return self._splice(d, dchild)
+        # an arm that does what the default does is not an arm (`40 => Unknown(t, d)` next to `_ => Unknown(t, d)`)
+        import copy as _copy
+        dkey = json.dumps(renumber(_copy.deepcopy(d)), sort_keys=True)
+        built = [x for x in built if json.dumps(renumber(_copy.deepcopy(x[1])), sort_keys=True) != dkey]
+        if not built:
+            if dchild is not None:
+                return self._splice(d, dchild)
+            self.steps.extend(d["steps"])
+            self._adv()
+            if d["ret"][0] == "err":
+                raise Fail(d["ret"][1], d["ret"][2])
+            return d["ret"][1]
         b = self.counter.fresh()
         a2 = [[consts, s] for consts, s, _ in built]
         a2.sort(key=lambda x: x[0])
@@ -1791,6 +1819,8 @@ class Ev:
                     # let res = match .. { .., _ => return None };   evaluated where `res` is used
                     env2[s["pat"]["id"]] = LazyResult(strip(s["init"]), dict(env2), gen, b.cur)
                     continue
+                if s["k"] in ("semi", "sexpr") and strip(s["e"])["k"] == "ret":
+                    return rec(strip(s["e"]), env2, b)
                 if self.eval_stmt(s, env2, gen, b, [], None) is not None:
                     raise Opaque("return of a value inside a choice")
             if e["expr"] is None:
@@ -2395,6 +2425,21 @@ class Ev:
                 p1 = self.parser_of(a[0], env, gen)
                 fn = self.fn_value(a[1], env, gen)
                 return ParserFn(lambda b: fn(p1.apply(b)), fp)
+            if fp == "nom::combinator::map_res":
+                p1 = self.parser_of(a[0], env, gen)
+                f2 = strip_ref(a[1])
+                tgt = (f2.get("resolved") or f2.get("path") or "") if f2["k"] == "path" else ""
+                m_ = re.search(r"\[u8; (\d+)", tgt + " " + str(f2.get("args", "")) + " " + f2.get("ty", ""))
+                if "TryFrom" in tgt and "try_from" in tgt and m_:
+                    n_ = int(m_.group(1))
+                    def mr(b, n_=n_):
+                        v = p1.apply(b)
+                        last = b.steps[-1] if b.steps else None
+                        if not (last is not None and last[0] == "bytes" and last[2] == ["n", n_] and v == V(last[1])):
+                            raise Opaque("map_res with a conversion that can fail")
+                        return ["array", n_, v]   # slice of exactly N bytes -> &[u8; N] cannot fail
+                    return ParserFn(mr, fp)
+                raise Opaque("map_res with a function the analysis cannot read")
             if fp == "nom::combinator::verify":
                 p1 = self.parser_of(a[0], env, gen)
                 fn = self.fn_value(a[1], env, gen)
@@ -2679,6 +2724,24 @@ class Ev:
                 if all(x[0] == "n" for x in bs):
                     return ["bytes_lit", [x[1] for x in bs]]
                 return ["array", bs]
+            if re.fullmatch(r"core::ops::range::Range\w*::<Idx>::contains", p) and len(args) == 1:
+                x_ = args[0]
+                lo_ = hi_ = None
+                incl_ = False
+                if recv[0] == "struct" and recv[1].startswith("core::ops::range::Range"):
+                    fs_ = dict((k_, v_) for k_, v_ in recv[2])
+                    lo_, hi_, incl_ = fs_.get("start"), fs_.get("end"), "Inclusive" in recv[1]
+                elif recv[0] == "call" and recv[1] == "core::ops::range::RangeInclusive::<Idx>::new" and len(recv[2]) == 2:
+                    lo_, hi_, incl_ = recv[2][0], recv[2][1], True
+                else:
+                    return canon_mcall(p, [recv] + args)
+                c_ = ["bool", True]
+                if lo_ is not None:
+                    c_ = le(lo_, x_)
+                if hi_ is not None:
+                    h_ = le(x_, hi_) if incl_ else lt(x_, hi_)
+                    c_ = h_ if c_ == ["bool", True] else land(c_, h_)
+                return c_
             if p == "core::slice::<impl [T]>::split_at" and len(args) == 1:
                 # (x[..n], x[n..]); the out-of-range panic is C01's business (PANIC-SITE split_at rule)
                 return tup(["slice_to", recv, args[0]], ["slice_from", recv, args[0]])
